@@ -14,6 +14,7 @@ RULE = ("G_live witness graphs (+ the repository's own test topology) under both
         "checked for isolation (own nonce only, seq/time from 0, C03/C04 clauses); one evaluation = one episode; non-trivial = "
         "episode whose forced gate was reached or that ended with an immediate stop/next reset; distinct by spec digest x episode "
         "x ending")
+RULE += " Built later: episodes start from the initial or from the previous episode's final graph state (carried over; only the seq/time-from-0 clauses apply then); one node with a 1 s start-up routine on the wall clock (episode time must not include it)."
 MIN_NONTRIVIAL = {"quick": 20, "thorough": 300}
 DECIDING = ["lifecycle_calls", "gates_reached", "episodes_checked"]
 ASSUMPTIONS = ["'always return' is restated as: no quiescent deadlock on protocol-valid histories over G_live + corpus (DESIGN.md 4/C05); "
